@@ -36,7 +36,9 @@ static H10 gen_h10(Rng& rng) {
   if (rng.chance(1, 5)) for (int i = 0; i < 70; i++) pad += "rule manyr" + std::to_string(i) + " { condition: filesize % 7 == " + std::to_string(i % 7) + " or uint8(0) == " + std::to_string(60 + i) + " }\n";
   if (rng.chance(1, 3)) { pad = "rule padding {\n  strings:\n"; for (int i = 0; i < 70; i++) pad += "    $p" + std::to_string(i) + " = \"pad_" + std::to_string(i) + "_x\"\n"; pad += "  condition:\n    any of them\n}\n"; }
   h.spec.sources[0].second = "import \"tests\"\nimport \"pe\"\n" + h.spec.sources[0].second + pad + C10_EXTRA +
-    "rule md { condition: tests.module_data == \"mdata-1\" }\nrule ep { condition: entrypoint >= 0 }\nrule fsz { condition: filesize > 1000 }\nrule pesec { condition: pe.number_of_sections > 2 }\n";
+    "rule md { condition: tests.module_data == \"mdata-1\" }\nrule ep { condition: entrypoint >= 0 }\nrule fsz { condition: filesize > 1000 }\nrule pesec { condition: pe.number_of_sections > 2 }\n"
+    "rule ep_low { condition: entrypoint < 100000 }\nrule pe_ep_low { condition: pe.entry_point < 100000 }\nrule pe_is { condition: pe.is_pe }\n";
+  h.spec.sources[0].second = "import \"elf\"\n" + h.spec.sources[0].second + "rule elf_dyn { condition: elf.type == elf.ET_DYN }\nrule elf_ep_low { condition: elf.entry_point < 100000 }\n";
   h.bufs.resize(B_NKINDS);
   h.bufs[B_TEXT] = lc.buffers[0] + " bystander";
   h.bufs[B_PE] = corpus_file("tiny"); h.bufs[B_ELF] = corpus_file("elf_with_imports"); h.bufs[B_EMPTY] = "";
@@ -46,7 +48,7 @@ static H10 gen_h10(Rng& rng) {
   int n = (int) rng.range(3, 12);
   for (int i = 0; i < n; i++) {
     Op o; o.buf = (int) rng.below(B_NKINDS); o.plan = rng.chance(2, 5) ? P_NONE : (int) rng.below(P_NPLANS);
-    o.k = (int) rng.below(40); o.entry = (int) rng.below(3); o.flags = (int) rng.below(4); o.mdata = (int) rng.below(3);
+    o.k = (int) rng.below(40); o.entry = (int) rng.below(3); o.flags = (i > 0 && rng.chance(3, 4)) ? h.ops[i - 1].flags : (int) rng.below(4); o.mdata = (int) rng.below(3);
     if (o.plan == P_NR_RESUME || o.plan == P_NR_ABANDON) o.entry = 2;
     else if (rng.chance(1, 14) && o.plan != P_TOOMANY_CONT && o.plan != P_TOOMANY_ABORT) { o.entry = 3; if (o.plan == P_TIMEOUT) o.plan = P_ERROR; }
     h.ops.push_back(o);
@@ -79,16 +81,18 @@ static int proc_child() {
 static const char* MDATA[] = {"", "mdata-1", "mdata-2"};
 
 // executes op on scanner sc (subject or fresh reference); same code path for both
-static ScanOut exec_op(YR_SCANNER* sc, const H10& h, const Op& o, bool reference) {
+static ScanOut exec_op(YR_SCANNER* sc, const H10& h, const Op& o, bool reference, bool first_on_subject = false, int prev_flags = -1) {
   ScanOut out; const std::string& buf = h.bufs[o.buf];
   Recorder rec;
   if (o.mdata) { rec.module_data = MDATA[o.mdata]; rec.module_data_size = strlen(MDATA[o.mdata]); rec.module_data_for = "tests"; }
   if (o.plan == P_ABORT || o.plan == P_ERROR) { rec.reply_at = o.k; rec.reply_code = o.plan == P_ABORT ? CALLBACK_ABORT : CALLBACK_ERROR; }
   rec.too_many_reply = o.plan == P_TOOMANY_ABORT ? CALLBACK_ABORT : CALLBACK_CONTINUE;
   static const int FL[4] = {0, SCAN_FLAGS_REPORT_RULES_MATCHING, SCAN_FLAGS_REPORT_RULES_NOT_MATCHING, SCAN_FLAGS_REPORT_RULES_MATCHING | SCAN_FLAGS_REPORT_RULES_NOT_MATCHING};
-  yr_scanner_set_flags(sc, FL[o.flags]);
+  // flags and timeout are scanner settings: applied when they change (always on a fresh scanner), not re-applied
+  // before every scan - re-applying would paper over a scan that leaves them modified
+  if (reference || first_on_subject || o.flags != prev_flags) yr_scanner_set_flags(sc, FL[o.flags]);
   yr_scanner_set_callback(sc, recorder_callback, &rec);
-  yr_scanner_set_timeout(sc, 1000);
+  if (reference || first_on_subject) yr_scanner_set_timeout(sc, 1000);
   sim_clock_reset();
   if (o.plan == P_TIMEOUT) { g_clock.jump_at_read = 1 + o.k % 7; g_clock.jump_ns = 2000LL * 1000000000LL; }
   int rc;
@@ -144,10 +148,11 @@ static Diff10 run_h10(const H10& h, YR_RULES* rules, Stats* st, bool destroy_che
   bool pending_abandoned = false;
   for (size_t i = 0; i < h.ops.size(); i++) {
     const Op& o = h.ops[i];
-    ScanOut subj = exec_op(sc, h, o, false);
+    ScanOut subj = exec_op(sc, h, o, false, i == 0, i ? h.ops[i - 1].flags : -1);
     YR_SCANNER* fresh = NULL; yr_scanner_create(rules, &fresh);
     ScanOut ref = exec_op(fresh, h, o, true);
     yr_scanner_destroy(fresh);
+    if (st && o.entry == 3) { st->c["ops.process_scan"]++; if (subj.rc != ERROR_COULD_NOT_ATTACH_TO_PROCESS) st->c["probe.process_scan_attached"]++; }
     if (st) { st->c[std::string("ops.") + PLAN_NAMES[o.plan]]++; if (subj.fired) st->c[std::string("faults_fired.") + PLAN_NAMES[o.plan]]++; st->c[std::string("buf.") + BUF_NAMES[o.buf]]++; st->c["sim_time_ns"] += (subj.rc == ERROR_SCAN_TIMEOUT) ? 2000LL * 1000000000LL : 0; }
     if (subj.rc != ref.rc) { d.op = (int) i; d.what = "return-code"; d.tag = std::string(yr_error_name(ref.rc)) + "->" + yr_error_name(subj.rc); d.detail = "scan " + std::to_string(i) + " returned " + yr_error_name(subj.rc) + ", a fresh scanner " + yr_error_name(ref.rc); break; }
     if (subj.trace != ref.trace) { d.op = (int) i; d.what = "trace"; d.tag = tag_of(ref.trace, subj.trace); d.detail = "scan " + std::to_string(i) + " differs from a fresh scanner: " + d.tag; break; }
